@@ -597,6 +597,16 @@ impl StateStore {
                     RuleEngineError::ExecutionError(format!("Failed to serialize state: {}", e))
                 })?;
 
+                // Only acknowledge what restore() will be able to read: the JSON reader has
+                // limits of its own (nesting depth, for one), and a checkpoint that cannot be
+                // read back is lost the moment it is written.
+                serde_json::from_str::<HashMap<String, Value>>(&json).map_err(|e| {
+                    RuleEngineError::ExecutionError(format!(
+                        "Cannot checkpoint: the serialized state cannot be read back: {}",
+                        e
+                    ))
+                })?;
+
                 let mut file = fs::File::create(&data_path).map_err(|e| {
                     RuleEngineError::ExecutionError(format!(
                         "Failed to create checkpoint file: {}",
